@@ -402,6 +402,20 @@ func runC06(c *core.Ctx) {
 					}
 				}
 			}
+			// an attribute whose name has a fixed meaning states that field of the session, not another one
+			{
+				var as []saml.Attribute
+				for _, at := range d.Attrs {
+					a := saml.Attribute{Name: at.Name, FriendlyName: at.FriendlyName, NameFormat: at.NameFormat}
+					for _, v := range at.Values {
+						a.Values = append(a.Values, saml.AttributeValue{Value: v})
+					}
+					as = append(as, a)
+				}
+				for _, bad := range attrMeaning(as, &sess) {
+					fail("attribute-states-another-field-of-the-session", "%s", bad)
+				}
+			}
 			// (which session fields are emitted as attributes is the assertion maker's choice; C07 checks exactness of the round trip.
 			// Here only "nothing foreign" is demanded, as the statement says "of the authenticated session only".)
 			_ = seen
